@@ -72,6 +72,11 @@ def harness_min_ann(tier, seed):
                 params = np.array([rng.uniform(-3, 3) for _ in range(pd)])
                 state = np.array([rng.uniform(-5, 5) for _ in range(sd)])
                 mode = r % 6
+                if r < 2 ** pd:                       # every zero / non-zero pattern of the parameters once
+                    for b_ in range(pd):
+                        if (r >> b_) & 1:
+                            params[b_] = 0.0
+                    mode = 5
                 if mode == 0:
                     params[:] = 0.0
                 elif mode == 1:
@@ -87,9 +92,13 @@ def harness_min_ann(tier, seed):
                     continue
                 s0, p0 = state.copy(), params.copy()
                 out = np.full(1, np.nan)
-                ctrl.controller(state, 0.0, params, out)
-                evals += 1
                 info = {"controller": ctrl.name, "state": s0.tolist(), "params": p0.tolist()}
+                try:
+                    ctrl.controller(state, 0.0, params, out)
+                except Exception as ex:     # noqa: BLE001  (e.g. ZeroDivisionError out of the compiled kernel)
+                    viol.append((f"predefined/{ctrl.name}/raises", info, repr(ex)))
+                    continue
+                evals += 1
                 if not (out[0] == want or abs(out[0] - want) <= 1e-9 * max(1.0, abs(want))):
                     viol.append((f"predefined/{ctrl.name}/documented-law", info, f"out={float(out[0])}, law gives {want}"))
                 if not (np.array_equal(state, s0) and np.array_equal(params, p0)):
